@@ -447,6 +447,7 @@ void Executor::check_inverse(Obj& o) {
         if (!s.basisInverseRow(k, c, &idx, unscale)) viol("C05", "inverse_row", "getBasisInverseRowReal returned false on a regular basis", ctx);
         else {
           double worst = 0, scale = 0; for (int i = 0; i < m; i++) { scale = std::max(scale, fabs(inv[k][i].get_d())); worst = std::max(worst, fabs(c[i] - inv[k][i].get_d())); }
+          if (opt_.verbose) { fprintf(stderr, "[inverse_row %d unscale=%d] soplex:", k, (int)unscale); for (int i = 0; i < m; i++) fprintf(stderr, " %g", c[i]); fprintf(stderr, " exact:"); for (int i = 0; i < m; i++) fprintf(stderr, " %g", inv[k][i].get_d()); fprintf(stderr, " bind:"); for (int b : bind) fprintf(stderr, " %d", b); fprintf(stderr, "\n"); }
           if (!(worst <= rtol * (1 + scale))) { std::ostringstream d; d << "row " << k << " of the inverse differs from the exact inverse by " << worst << " (scale " << scale << ")"; viol("C05", "inverse_row", d.str(), ctx); }
           else if (!(idx.size() == 1 && idx[0] == -1)) {
             std::vector<char> in(m, 0); bool bad = false; for (int i : idx) { if (i < 0 || i >= m || in[i]) bad = true; else in[i] = 1; }
